@@ -627,9 +627,9 @@ func (self *Compiler) compileStructFieldEmpty(p *ir.Program, vt reflect.Type) {
 	case reflect.Uintptr:
 		p.Add(ir.OP_is_nil)
 	case reflect.Float32:
-		p.Add(ir.OP_is_zero_4)
+		p.Add(ir.OP_is_zero_f4)
 	case reflect.Float64:
-		p.Add(ir.OP_is_zero_8)
+		p.Add(ir.OP_is_zero_f8)
 	case reflect.String:
 		p.Add(ir.OP_is_nil_p1)
 	case reflect.Interface:
